@@ -45,6 +45,328 @@ def ordered(g, a, b):
     return not g.path_exists(nb, na) or na.id == nb.id
 
 
+class Layer:
+    """one source merged into a variables dict. origin: 'rally' (a dict display / item store written in Rally's code: its keys are known) or 'user' (data that comes from a car, a plugin,
+    a parameter or anything else that cannot be resolved: it may hold ANY key). keys: the constant keys of a 'rally' layer, None = any key. must: merged on every path (not under a
+    condition, not in a loop that may run zero times)."""
+    __slots__ = ("origin", "keys", "must", "text", "node", "src", "vals")
+
+    def __init__(self, origin, keys, must, text, node, src=None, vals=None):
+        self.origin, self.keys, self.must, self.text, self.node = origin, keys, must, text, node  # node: the statement / expression that merges the layer (for the report)
+        self.src = src if src is not None else node  # the source expression itself
+        self.vals = vals or {}  # 'rally' layers: key -> (value expression, function, class) as written
+
+    def show(self):
+        k = "*" if self.keys is None else (f"{len(self.keys)} keys" if len(self.keys) > 3 else ",".join(sorted(self.keys)))
+        return f"{'' if self.must else 'maybe '}{self.origin}:{self.text}[{k}]"
+
+
+class DictFlow:
+    """Merge-order model of dict-valued expressions of ONE module (later layer wins), followed through locals, accumulators (`d = {}` + `d.update(src)` / `d[k] = v` / `d |= src`),
+    dict displays with `**`, `dict(a, **b)`, `.copy()`, and through properties / methods of the module's classes. The class of a receiver other than `self` is resolved by FIELD FLOW
+    (`self.x = <parameter>` in `__init__` -> the argument at the construction sites of the class -> the class constructed there; loop variables over a list of such objects) and, failing
+    that, by a member name that only one class of the module defines (DESIGN appendix E). Whatever cannot be resolved is a 'user' layer that may hold any key. Nothing is evaluated."""
+
+    def __init__(self, repo, mod):
+        self.repo, self.mod = repo, mod
+        self.issues: list = []  # (text, node): shapes that make the order analysis meaningless (aliased accumulator, unordered merges)
+        self.classes = {c.name: c for c in mod.classes()}
+
+    # ---- receiver classes -----------------------------------------------------------------------------------------------------------------------------------
+    def value_type(self, e, func, depth=0):
+        """('obj', ClassDef) / ('list', ClassDef) for a constructor call / a list (comprehension) of constructor calls of a class of this module, else None."""
+        if depth > 6 or e is None:
+            return None
+        if isinstance(e, ast.Call) and last_attr(e.func) in self.classes:
+            return "obj", self.classes[last_attr(e.func)]
+        if isinstance(e, ast.ListComp):
+            t = self.value_type(e.elt, func, depth + 1)
+            return ("list", t[1]) if t and t[0] == "obj" else None
+        if isinstance(e, ast.List) and e.elts:
+            ts = [self.value_type(x, func, depth + 1) for x in e.elts]
+            return ("list", ts[0][1]) if all(t and t[0] == "obj" and t[1] is ts[0][1] for t in ts) else None
+        if isinstance(e, ast.Name) and func is not None:
+            d = local_defs(func).get(e.id)
+            return self.value_type(d, func, depth + 1) if d is not None else None
+        return None
+
+    def type_of(self, e, func, cls, depth=0):
+        if depth > 6:
+            return None
+        if is_self_attr(e) and cls is not None:
+            init = self.mod.methods(cls).get("__init__")
+            sets = [n for n in walk_body(init) if isinstance(n, ast.Assign) and len(n.targets) == 1 and is_self_attr(n.targets[0], e.attr)] if init is not None else []
+            if len(sets) != 1:
+                return None
+            v = sets[0].value
+            if isinstance(v, ast.Name) and v.id in params_of(init):
+                sites = [n for n in ast.walk(self.mod.tree) if isinstance(n, ast.Call) and last_attr(n.func) == cls.name] or \
+                        [n for n in source.constructions(self.repo, cls.name) if source.module_of(n).relpath.startswith("esrally/")]
+                ts = [self.value_type(source.bind_args(c, init).get(v.id), source.enclosing_func(c)) for c in sites]
+                return ts[0] if ts and all(t is not None and t == ts[0] for t in ts) else None
+            return self.value_type(v, init)
+        if isinstance(e, ast.Name) and func is not None:
+            loops = [n for n in walk_body(func) if isinstance(n, (ast.For, ast.AsyncFor)) and isinstance(n.target, ast.Name) and n.target.id == e.id]
+            if len(loops) == 1:
+                t = self.type_of(loops[0].iter, func, cls, depth + 1)
+                return ("obj", t[1]) if t and t[0] == "list" else None
+            d = local_defs(func).get(e.id)
+            if isinstance(d, (ast.Name, ast.Attribute)):
+                return self.type_of(d, func, cls, depth + 1)  # `inst = self.es_installer`
+            return self.value_type(e, func)
+        return None
+
+    def member(self, recv, name, func, cls):
+        """(class, function) of `recv.name`, or None."""
+        if isinstance(recv, ast.Name) and recv.id == "self" and cls is not None:
+            c = cls
+        else:
+            t = self.type_of(recv, func, cls)
+            c = t[1] if t and t[0] == "obj" else None
+            if c is None:
+                owners = [k for k in self.classes.values() if name in self.mod.methods(k)]
+                c = owners[0] if len(owners) == 1 else None
+        f = self.mod.methods(c).get(name) if c is not None else None
+        return (c, f) if f is not None else None
+
+    # ---- layers ---------------------------------------------------------------------------------------------------------------------------------------------------
+    def user(self, e, must=True):
+        return [Layer("user", None, must, short(e, 50), e)]
+
+    def returned(self, f, c, depth):
+        rets = [n for n in walk_body(f) if isinstance(n, ast.Return) and n.value is not None]
+        if len(rets) != 1:
+            raise source.AnchorMissing(f"{source.qualname(f)}: exactly one `return <dict>` expected, found {len(rets)}")
+        return self.layers(rets[0].value, f, c, depth + 1)
+
+    def layers(self, e, func, cls, depth=0):
+        if depth > 12:
+            raise source.AnchorMissing(f"dict flow too deep at `{short(e, 60)}`")
+        if isinstance(e, ast.Dict):
+            out, lit = [], {}
+            for k, v in zip(e.keys, e.values):
+                if k is None or not isinstance(k, ast.Constant):
+                    if lit:
+                        out.append(Layer("rally", frozenset(lit), True, f"{{...}}@{source.qualname(func)}", e, vals=lit))
+                        lit = {}
+                    out += self.layers(v, func, cls, depth + 1) if k is None else [Layer("rally", None, False, f"[{short(k, 30)}]", e)]  # a computed key: may be any key
+                else:
+                    lit[k.value] = (v, func, cls)
+            if lit:
+                out.append(Layer("rally", frozenset(lit), True, f"{{...}}@{source.qualname(func)}", e, vals=lit))
+            return out
+        if isinstance(e, ast.Call):
+            fn = dotted(e.func)
+            if fn == "dict" or fn in ("copy.copy", "copy.deepcopy"):
+                out = []
+                for a in e.args:
+                    out += self.layers(a, func, cls, depth + 1)
+                kw = {k.arg: (k.value, func, cls) for k in e.keywords if k.arg}
+                for k in e.keywords:
+                    if k.arg is None:
+                        out += self.layers(k.value, func, cls, depth + 1)
+                if kw:
+                    out.append(Layer("rally", frozenset(kw), True, "dict(k=...)", e, vals=kw))
+                return out
+            if isinstance(e.func, ast.Attribute) and e.func.attr == "copy" and not e.args:
+                return self.layers(e.func.value, func, cls, depth + 1)
+            if isinstance(e.func, ast.Attribute) and not e.args and not e.keywords:
+                m = self.member(e.func.value, e.func.attr, func, cls)
+                if m is not None:
+                    return self.returned(m[1], m[0], depth)
+            return self.user(e)
+        if isinstance(e, ast.BinOp) and isinstance(e.op, ast.BitOr):
+            return self.layers(e.left, func, cls, depth + 1) + self.layers(e.right, func, cls, depth + 1)
+        if isinstance(e, ast.Name) or is_self_attr(e):
+            got = self.variable(e, func, cls, depth)
+            if got is not None:
+                return got
+        if isinstance(e, ast.Attribute):
+            m = self.member(e.value, e.attr, func, cls)
+            if m is not None and any(dotted(d) == "property" for d in m[1].decorator_list):
+                return self.returned(m[1], m[0], depth)
+            return self.user(e)
+        return self.user(e)
+
+    def is_new(self, e, func, cls, depth=0):
+        """the value is a NEW dict (merging into it cannot change any other object): a display / comprehension / dict(...) / .copy(), or a property / method of a class of this module
+        (or a single-assignment local) that returns such a value."""
+        if depth > 6 or e is None:
+            return False
+        if isinstance(e, (ast.Dict, ast.DictComp)) or (isinstance(e, ast.BinOp) and isinstance(e.op, ast.BitOr)):
+            return True
+        if isinstance(e, ast.Call) and (dotted(e.func) in ("dict", "copy.copy", "copy.deepcopy", "collections.OrderedDict") or (isinstance(e.func, ast.Attribute) and e.func.attr == "copy")):
+            return True
+        if isinstance(e, ast.Name):
+            d = assigns_to(func, e.id)
+            return len(d) == 1 and self.is_new(d[0].value, func, cls, depth + 1)
+        m = None
+        if isinstance(e, ast.Call) and isinstance(e.func, ast.Attribute) and not e.args and not e.keywords:
+            m = self.member(e.func.value, e.func.attr, func, cls)
+        elif isinstance(e, ast.Attribute):
+            m = self.member(e.value, e.attr, func, cls)
+            m = m if m is not None and any(dotted(d) == "property" for d in m[1].decorator_list) else None
+        if m is not None:
+            rets = [n for n in walk_body(m[1]) if isinstance(n, ast.Return) and n.value is not None]
+            return bool(rets) and all(self.is_new(r.value, m[1], m[0], depth + 1) for r in rets)
+        return False
+
+    def variable(self, e, func, cls, depth):
+        """layers of a local / self attribute that is built inside `func` (for a self attribute read elsewhere: inside `__init__`); None if it is not built here."""
+        name = u(e)
+        defs = assigns_to(func, name)
+        if not defs:
+            init = self.mod.methods(cls).get("__init__") if is_self_attr(e) and cls is not None else None
+            if init is not None and init is not func and assigns_to(init, name):
+                return self.variable(e, init, cls, depth + 1)
+            return None
+        if len(defs) != 1:
+            raise source.AnchorMissing(f"{source.qualname(func)}: `{name}` is assigned {len(defs)} times; the merge order into it is not decided")
+        d0 = defs[0]
+        g = cfg_of(func)
+        merges = []
+        for n in walk_body(func):
+            if isinstance(n, ast.Call) and isinstance(n.func, ast.Attribute) and n.func.attr == "update" and u(n.func.value) == name:
+                merges.append((n, list(n.args) + [k.value for k in n.keywords if k.arg is None], {k.arg for k in n.keywords if k.arg}))
+            elif isinstance(n, ast.Assign) and isinstance(n.targets[0], ast.Subscript) and u(n.targets[0].value) == name:
+                merges.append((n, [], n.targets[0].slice))
+            elif isinstance(n, ast.AugAssign) and isinstance(n.op, ast.BitOr) and u(n.target) == name:
+                merges.append((n, [n.value], set()))
+            elif isinstance(n, ast.Call) and isinstance(n.func, ast.Attribute) and n.func.attr in ("setdefault", "pop", "clear", "popitem") and u(n.func.value) == name:
+                raise source.AnchorMissing(f"{source.qualname(func)}: `{short(n, 60)}` — only update / item stores are understood by the merge-order analysis")
+        merges.sort(key=lambda m: (m[0].lineno, m[0].col_offset))
+        out = self.layers(d0.value, func, cls, depth + 1)
+        if merges and not self.is_new(d0.value, func, cls):
+            self.issues.append((f"`{name}` is not a new dict but `{short(d0.value, 50)}` itself: merging into it writes Rally's values into that object (the car's variables) for every later reader", d0))
+        prev = d0
+        for n, srcs, keys in merges:
+            if not ordered(g, prev, n) or (prev is d0 and g.path_exists(g.node_of(n), g.node_of(d0))):
+                self.issues.append((f"the merges into `{name}` are not executed in one fixed order", n))
+            prev = n
+            must = not guards(n, path_sensitive=True) and not any(isinstance(a, (ast.For, ast.AsyncFor, ast.While, ast.Try)) for a in source.ancestors(n) if any(a is x for x in walk_body(func)))
+            sub = []
+            for s_ in srcs:
+                sub += self.layers(s_, func, cls, depth + 1)
+            if isinstance(keys, ast.AST):
+                sub.append(Layer("rally", frozenset([keys.value]) if isinstance(keys, ast.Constant) else None, isinstance(keys, ast.Constant), f"[{short(keys, 30)}]", n,
+                                 vals={keys.value: (n.value, func, cls)} if isinstance(keys, ast.Constant) else None))
+            elif keys:
+                sub.append(Layer("rally", frozenset(keys), True, "update(k=...)", n, vals={k.arg: (k.value, func, cls) for k in n.keywords if k.arg}))
+            for L in sub:
+                out.append(Layer(L.origin, L.keys, L.must and must, L.text, n, L.src, L.vals))
+        return out
+
+
+def overridable(layers, keys, flow=None):
+    """{key: layer or None} for every key whose FINAL value is not surely Rally's own: walking back from the last merged source, the first one that can hold the key is a user source
+    (reported), or no Rally source holds it on every path (None), or the value Rally's own entry stores is itself read from one of the user sources of this composition
+    (`d["http_port"] = plugin_variables.get("http_port", ...)`: the user layer is reported)."""
+    bad = {}
+    user_texts = {u(L.src) for L in layers if L.origin == "user"}
+    for k in sorted(keys):
+        for L in reversed(layers):
+            if L.keys is None or k in L.keys:
+                if L.origin == "user":
+                    bad[k] = L
+                    break
+                if flow is not None and k in L.vals:
+                    v, f, c = L.vals[k]
+                    probe = DictFlow(flow.repo, flow.mod)  # a scratch instance: its issues are not this composition's
+                    for x in ast.walk(v):
+                        if isinstance(x, (ast.Name, ast.Attribute)) and isinstance(getattr(x, "ctx", None), ast.Load):
+                            try:
+                                hit = [U for U in probe.layers(x, f, c) if U.origin == "user" and u(U.src) in user_texts]
+                            except AnchorMissing:
+                                hit = []
+                            if hit:
+                                bad[k] = hit[0]
+                                break
+                    if k in bad:
+                        break
+                if L.must:
+                    break
+        else:
+            bad[k] = None
+    return bad
+
+
+_SWALLOWS_OSERROR = ("OSError", "IOError", "EnvironmentError", "Exception", "BaseException")  # OSError, its aliases and its base classes (rmtree raises a plain OSError for a link)
+
+
+def symlinked_data_path_rule(chk, rid, pv, cu, data_param):
+    """cleanup removes ALL data paths: a data path is given by the user (car parameter data_paths) and may legally be a symbolic link to a directory on another disk. shutil.rmtree(<link>)
+    refuses with OSError('Cannot call rmtree on a symbolic link'). Necessary: wherever the tree removal receives the data path itself, either the link case is handled (the call is
+    only reached when the path is not a link and the link branch removes something or raises; or the path was resolved with realpath first), or the refusal is not swallowed (no handler
+    for OSError without re-raise around the call or around the helper's calls, no ignore_errors / contextlib.suppress) - otherwise cleanup returns normally with the data still there."""
+    own = [x for st in cu.body if not isinstance(st, (ast.FunctionDef, ast.AsyncFunctionDef, ast.ClassDef)) for x in source.walk_local(st)]
+    loops = [x for x in own if isinstance(x, ast.For) and u(x.iter) == data_param and isinstance(x.target, ast.Name)]
+    if not loops:
+        raise AnchorMissing("cleanup: loop over the data paths")
+    lv = loops[0].target.id
+    # the code that removes ONE data path, by role: the callee that receives the loop variable (a nested or module-level helper), else the loop body itself
+    hcalls = [x for x in ast.walk(loops[0]) if isinstance(x, ast.Call) and isinstance(x.func, ast.Name) and any(isinstance(a, ast.Name) and a.id == lv for a in x.args)]
+    helper, hparam = None, None
+    for c in hcalls:
+        cand = [n for n in cu.body if isinstance(n, ast.FunctionDef) and n.name == c.func.id] or [n for n in pv.tree.body if isinstance(n, ast.FunctionDef) and n.name == c.func.id]
+        if cand:
+            b = source.bind_args(c, cand[0], skip_self=False)
+            ps = [k for k, v in b.items() if isinstance(v, ast.Name) and v.id == lv]
+            if ps:
+                helper, hparam = cand[0], ps[0]
+                break
+    scope, pathv = (helper, hparam) if helper is not None else (loops[0], lv)
+    rm = [x for x in ast.walk(scope) if isinstance(x, ast.Call) and dotted(x.func) == "shutil.rmtree" and x.args]
+    if not rm:
+        raise AnchorMissing("cleanup: the shutil.rmtree call that removes one data path")
+    hdefs = local_defs(helper) if helper is not None else {}
+    g = cfg_of(helper if helper is not None else cu)
+    pb = {"p": pathv}
+    LINK = ("os.path.islink(V_p)", "pathlib.Path(V_p).is_symlink()", "Path(V_p).is_symlink()", "V_p.is_symlink()")
+    resolved = [n for n in ast.walk(scope) if isinstance(n, ast.Assign) and len(n.targets) == 1 and isinstance(n.targets[0], ast.Name) and n.targets[0].id == pathv
+                and pat.is_(n.value, "os.path.realpath(V_p)", "pathlib.Path(V_p).resolve()", "Path(V_p).resolve()", "V_p.resolve()", binds=pb)]
+    bad = []
+    for r in rm:
+        arg = source.inline_node(r.args[0], {k: v for k, v in hdefs.items() if k != pathv})
+        on_link_itself = isinstance(arg, ast.Name) and arg.id == pathv  # anything else (realpath(p), an entry below p, ...) is not the user's link
+        if not on_link_itself:
+            continue
+        if any(g.path_exists(g.node_of(a), g.node_of(r)) and not g.path_exists(g.node_of(r), g.node_of(a)) for a in resolved):
+            # `p = os.path.realpath(p)` runs before the removal; when it is conditional its condition must be the link test
+            if all(not pat.fact_nodes(a, stop=scope) or any(pat.is_(f, *LINK, binds=pb) for f in pat.fact_nodes(a, stop=scope)) for a in resolved):
+                continue
+        not_link = any(pat.is_(f, *[f"not {p_}" for p_ in LINK], binds=pb) for f in pat.fact_nodes(r, stop=scope))
+        link_arm = [x for x in ast.walk(scope) if ((isinstance(x, ast.Call) and dotted(x.func) in ("shutil.rmtree", "os.remove", "os.unlink", "os.rmdir")) or isinstance(x, ast.Raise)) and x is not r
+                    and any(pat.is_(f, *LINK, binds=pb) for f in pat.fact_nodes(x, stop=scope))]
+        handled = not_link and bool(link_arm)
+        if handled:
+            continue
+        # the refusal must then surface: look for whatever swallows an OSError of this call
+        sw = None
+        if any(k.arg in ("ignore_errors", "onerror", "onexc") for k in r.keywords) and not any(k.arg == "ignore_errors" and source.is_const(k.value, False) for k in r.keywords):
+            sw = r
+        sites = [r] + ([c for c in ast.walk(cu) if isinstance(c, ast.Call) and isinstance(c.func, ast.Name) and c.func.id == helper.name] if helper is not None else [])
+        for s_ in sites:
+            child = s_
+            for a in source.ancestors(s_):
+                if isinstance(a, (ast.FunctionDef, ast.AsyncFunctionDef)):
+                    break
+                if isinstance(a, ast.Try) and any(child is st for st in a.body):
+                    for h in a.handlers:
+                        names = [dotted(e_) or "?" for e_ in (h.type.elts if isinstance(h.type, ast.Tuple) else [h.type])] if h.type is not None else ["BaseException"]
+                        if any(nm.split(".")[-1] in _SWALLOWS_OSERROR for nm in names) and not any(isinstance(x, ast.Raise) for x in ast.walk(h)):
+                            sw = sw or h
+                if isinstance(a, (ast.With, ast.AsyncWith)) and any(isinstance(i.context_expr, ast.Call) and last_attr(i.context_expr.func) == "suppress" for i in a.items):
+                    sw = sw or a
+                child = a
+        if sw is not None:
+            bad.append((r, sw))
+    tag = source.qualname(helper) if helper is not None else source.qualname(cu)
+    chk.ob(rid, "cleanup: a data path that is a symbolic link to a directory is removed as well, or the refusal of the tree removal is reported (not swallowed)", not bad, bad[0][0] if bad else rm[0],
+           "" if not bad else f"`{short(bad[0][0], 40)}` receives the data path itself; for a symbolic link to a directory (data_paths on another disk) it raises OSError('Cannot call rmtree on a symbolic link'), "
+           f"which {'the handler at line ' + str(bad[0][1].lineno) if isinstance(bad[0][1], ast.ExceptHandler) else short(bad[0][1], 40)} swallows: cleanup returns normally, the data survives into the next race",
+           key=f"{_P}:{tag}:symlinked-data-path-removed-or-failure-reported")
+
+
 def cleanup_isolation_rule(chk, rid, pv):
     """provisioner.cleanup: a path that cannot be deleted (OSError) does not stop the deletion of the remaining data paths and of the installation — either the removal call is
     protected for ONE path at a time (try/except OSError inside the helper / inside the loop body), or nothing in the function catches OSError at all (the failure is then reported,
@@ -76,7 +398,9 @@ def run(chk):
         "Decides precedence by merge-order analysis (later source wins): config-base variables < car variables < car parameters in the car loader, accumulated over the car names in the "
         "given order; Rally's node variables merged last in the installer; config bases appended in order under a not-in guard; template mirroring (target path = target root + path "
         "relative to the source root + name; text files appended with a rendered chunk that always ends in a newline; others copied; one extension table); cleanup deletes every data "
-        "path and the installation unless preserve, in which case no delete is reachable."
+        "path and the installation unless preserve, in which case no delete is reachable; a symbolic-link data path is either handled or its refused removal is not swallowed. "
+        "O13.5 models the variables the templates are rendered with as ordered merge layers (followed through locals, dict displays, properties and - by constructor field flow - "
+        "through the installer objects): for every node variable of Rally the last layer that can hold it is Rally's own."
     )
     chk.not_decided = "Jinja output, filesystem effects, configparser interpolation."
 
@@ -169,15 +493,17 @@ def run(chk):
     ev_ = pv.methods(EI).get("variables")
     if ev_ is None:
         raise AnchorMissing("ElasticsearchInstaller.variables")
-    rv = [n for n in walk_body(ev_) if isinstance(n, ast.Return)]
-    ivar = u(rv[0].value) if rv else None
-    seq3, g3 = merges_into(ev_, ivar)
-    n3 = [s for s, _ in seq3]
-    edefs = local_defs(ev_)
-    last_src = edefs.get(n3[-1]) if n3 and n3[-1] in edefs else None
-    keys = {k.value for k in last_src.keys if isinstance(k, ast.Constant)} if isinstance(last_src, ast.Dict) else set()
-    ok = len(n3) >= 2 and n3[0] == "self.car.variables" and INTERNAL_KEYS <= keys and all(not guards(n) for _, n in seq3) and ordered(g3, seq3[0][1], seq3[-1][1])
-    chk.ob("O13.1", "installer: car variables merged before Rally's node variables", ok, seq3[-1][1] if seq3 else ev_, f"merge order: {n3}; internal keys missing from the last source: {sorted(INTERNAL_KEYS - keys)}")
+    # The installer's variables as ordered layers (later wins), followed through locals and through properties of the class (the node variables may live in a local dict or in
+    # a property of their own): the car's variables are the first layer, every layer is merged unconditionally into a NEW dict, and for each of Rally's node variables the last
+    # layer that can hold it is a dict written by Rally that does hold it.
+    flow = DictFlow(repo, pv)
+    L3 = flow.returned(ev_, EI, 0)
+    over3 = overridable(L3, INTERNAL_KEYS, flow)
+    held = set().union(*[L.keys for L in L3 if L.origin == "rally" and L.keys is not None]) if L3 else set()
+    ok = len(L3) >= 2 and L3[0].origin == "user" and pat.is_(L3[0].src, "self.car.variables") and not over3 and all(L.must for L in L3) and not flow.issues
+    chk.ob("O13.1", "installer: car variables merged before Rally's node variables", ok, (flow.issues[0][1] if flow.issues else L3[-1].node) if L3 else ev_,
+           f"merge order: {[L.show() for L in L3]}; internal keys missing from the last source: {sorted(INTERNAL_KEYS - held)}" +
+           ("".join(f"; `{k}` can be overridden by {L.show() if L is not None else 'nothing of Rally defines it'}" for k, L in sorted(over3.items())[:3])) + "".join(f"; {t}" for t, _ in flow.issues))
     BP = pv.cls("BareProvisioner")
     pvf = pv.methods(BP).get("_provisioner_variables")
     rvp = [n for n in walk_body(pvf) if isinstance(n, ast.Return)] if pvf else []
@@ -185,14 +511,20 @@ def run(chk):
         raise AnchorMissing("BareProvisioner._provisioner_variables")
     seq4, g4 = merges_into(pvf, u(rvp[0].value))
     n4 = [s for s, _ in seq4]
-    ok = bool(n4) and n4[0] == "self.es_installer.variables"
-    chk.ob("O13.1", "provisioner variables start from the installer's variables", ok, seq4[0][1] if seq4 else pvf, f"merge order: {n4}")
+    # decided on the merge layers (not on the spelling of the first update): the composed variables BEGIN with exactly the layers of the installer's `variables` property
+    # (car variables, then Rally's node variables), all merged unconditionally - whether through update calls, a dict display or a dict(...) copy
+    flow5 = DictFlow(repo, pv)
+    L5 = flow5.returned(pvf, BP, 0)
+    sig = lambda L: (L.origin, L.keys, L.must, u(L.src))  # noqa: E731
+    ok = bool(L3) and [sig(L) for L in L5[:len(L3)]] == [sig(L) for L in L3] and all(L.must for L in L3)
+    chk.ob("O13.1", "provisioner variables start from the installer's variables", ok, seq4[0][1] if seq4 else pvf, f"merge order: {[L.show() for L in L5]}")
     # the plugin-variable accumulator by ROLE: the local that collects `<installer>.variables` in the loop over self.plugin_installers
     plug_acc = {u(x.func.value) for l in walk_body(pvf) if isinstance(l, ast.For) and u(l.iter) == "self.plugin_installers" for x in ast.walk(l)
                 if isinstance(x, ast.Call) and isinstance(x.func, ast.Attribute) and x.func.attr == "update" and x.args and isinstance(x.args[0], ast.Attribute) and x.args[0].attr == "variables"}
     late = [n for s_, n in seq4[1:] if s_ in plug_acc]
     if late:
-        chk.adv("O13.1", "plugin variables are merged after the installer's variables: a plugin parameter named like an internal node variable (http_port, network_host, ...) overrides it (plugins are outside the property's statement)", late[0])
+        chk.adv("O13.1", "plugin variables are merged after the installer's variables: a plugin variable overrides a CAR variable of the same name (plugin-over-car precedence is outside the "
+                "property's statement; that Rally's node variables still win is O13.5)", late[0])
 
     # ---- O13.2 config bases in order without duplicates ---------------------------------------------------------------------------------------------------
     chk.rule("O13.2", "config bases are appended in the given order, guarded by `not in` (no duplicates, no re-ordering)", 3, "two cars sharing a config base: its templates are rendered twice (appended twice)")
@@ -382,13 +714,76 @@ def run(chk):
     ok = bool(dp) and any(isinstance(x, ast.Call) and dotted(x.func) == "shutil.rmtree" and x.args and params_of(dp[0]) and u(x.args[0]) == params_of(dp[0])[0] for x in ast.walk(dp[0]))
     chk.ob("O13.4", "delete_path removes the given tree", ok, dp[0] if dp else cu, "")
     cleanup_isolation_rule(chk, "O13.4", pv)
+    symlinked_data_path_rule(chk, "O13.4", pv, cu, cp_[2])
+
+    # ---- O13.5 Rally's node variables win in the variables the templates are rendered with (F37) -------------------------------------------------------------------
+    chk.rule("O13.5", "the variables every config template is rendered with: for each of Rally's node variables (network host, ports, paths, names) the LAST merged source that can hold "
+             "the key is a dict written by Rally that holds it on every path - no car, plugin or other user-controlled source is merged after it; and these composed variables are "
+             "the ones handed to the renderer", 3,
+             "a plugin variable / plugin parameter (or any later user source) named http_port, network_host, node_name, data_paths, ... replaces Rally's value in the rendered "
+             "elasticsearch.yml while Rally itself (launcher, telemetry, cleanup) keeps using its own")
+    over5 = overridable(L5, INTERNAL_KEYS, flow5)
+    first_bad = next((L for _, L in sorted(over5.items()) if L is not None), None)
+    chk.ob("O13.5", "bare provisioner: Rally's node variables are the last source of their keys (no car / plugin / user source is merged after them)", bool(L5) and not over5 and not flow5.issues,
+           (first_bad.node if first_bad is not None else (flow5.issues[0][1] if flow5.issues else pvf)),
+           f"merge order: {[L.show() for L in L5]}" + "".join(f"; `{k}` is taken from {L.show() if L is not None else 'no source of Rally on every path'}" for k, L in sorted(over5.items())[:4]) +
+           (f" (+{len(over5) - 4} more keys)" if len(over5) > 4 else "") + "".join(f"; {t}" for t, _ in flow5.issues),
+           key=f"{_P}:BareProvisioner._provisioner_variables:node-variables-merged-last")
+    # the composed variables reach the renderer: every apply_config(...) of prepare receives, as the parameter that flows into _render_template's variables, the result of that method
+    binit = pv.methods(BP).get("__init__")
+    if binit is None:
+        raise AnchorMissing("BareProvisioner.__init__")
+    # the function behind self.apply_config, by field flow: `self.apply_config = <parameter>` whose default is a module-level function
+    positional = binit.args.posonlyargs + binit.args.args
+    dflt = dict(zip([a.arg for a in positional[len(positional) - len(binit.args.defaults):]], binit.args.defaults))
+    dflt.update({a.arg: d for a, d in zip(binit.args.kwonlyargs, binit.args.kw_defaults) if d is not None})
+    ac_set = [n.value for n in walk_body(binit) if isinstance(n, ast.Assign) and len(n.targets) == 1 and is_self_attr(n.targets[0], "apply_config")]
+    ac_default = dflt.get(ac_set[0].id) if len(ac_set) == 1 and isinstance(ac_set[0], ast.Name) else (ac_set[0] if len(ac_set) == 1 else None)
+    acf = pv.get(ac_default.id, required=False) if isinstance(ac_default, ast.Name) else None
+    if not isinstance(acf, ast.FunctionDef):
+        raise AnchorMissing("BareProvisioner.__init__(..., apply_config=<module function>)")
+    rcalls = [n for n in ast.walk(acf) if isinstance(n, ast.Call) and last_attr(n.func) == "_render_template"]
+    vparam = next((u(source.bind_args(c, rt, skip_self=False).get(rp[1])) for c in rcalls if u(source.bind_args(c, rt, skip_self=False).get(rp[1])) in params_of(acf)), None)
+    if vparam is None:
+        raise AnchorMissing(f"{acf.name}: the parameter handed to _render_template as `{rp[1]}`")
+    acalls = [n for n in walk_body(prep) if isinstance(n, ast.Call) and pat.is_(n.func, "self.apply_config")]
+    pdefs = local_defs(prep)
+
+    def composed(e):
+        v = pdefs.get(e.id) if isinstance(e, ast.Name) else e
+        return isinstance(v, ast.Call) and isinstance(v.func, ast.Attribute) and isinstance(v.func.value, ast.Name) and v.func.value.id == "self" and v.func.attr == pvf.name
+
+    badc = [c for c in acalls if not composed(source.bind_args(c, acf, skip_self=False).get(vparam))]
+    mut = [n for n in walk_body(prep) for e in [source.bind_args(c, acf, skip_self=False).get(vparam) for c in acalls] if isinstance(e, ast.Name)
+           and ((isinstance(n, ast.Call) and isinstance(n.func, ast.Attribute) and n.func.attr in ("update", "pop", "setdefault", "clear") and u(n.func.value) == e.id)
+                or (isinstance(n, (ast.Assign, ast.Delete)) and any(isinstance(t, ast.Subscript) and u(t.value) == e.id for t in n.targets)))]
+    chk.ob("O13.5", "bare provisioner: every config base is rendered with the composed variables (unchanged between composition and rendering)", bool(acalls) and not badc and not mut,
+           (badc or mut or [prep])[0], f"{len(acalls)} apply_config call(s)" + (f"; `{short((badc or mut)[0], 70)}`" if badc or mut else ""))
+    # docker provisioner: the same question for the attribute its templates are rendered with
+    dwalk = [W for f_, W in walks if source.enclosing_class(f_) is DP]
+    drc = [n for W in dwalk for n in ast.walk(W) if isinstance(n, ast.Call) and last_attr(n.func) == "_render_template"]
+    dvar = source.bind_args(drc[0], rt, skip_self=False).get(rp[1]) if drc else None
+    if dvar is None or not is_self_attr(dvar):
+        raise AnchorMissing("DockerProvisioner: the self attribute handed to _render_template as variables")
+    flow6 = DictFlow(repo, pv)
+    L6 = flow6.variable(dvar, dinit, DP, 0) or []
+    DOCKER_KEYS = {"network_host", "http_port", "transport_port", "data_paths", "node_name", "cluster_name", "log_path", "install_root_path"}
+    over6 = overridable(L6, DOCKER_KEYS, flow6)
+    elsewhere = [n for f_ in pv.methods(DP).values() if f_ is not dinit for n in walk_body(f_)
+                 if (isinstance(n, ast.Call) and isinstance(n.func, ast.Attribute) and n.func.attr in ("update", "pop", "setdefault", "clear") and u(n.func.value) == u(dvar))
+                 or (isinstance(n, ast.Assign) and any(u(t) == u(dvar) or (isinstance(t, ast.Subscript) and u(t.value) == u(dvar)) for t in n.targets))]
+    bad6 = next((L for _, L in sorted(over6.items()) if L is not None), None)
+    chk.ob("O13.5", "docker provisioner: Rally's node variables are the last source of their keys in the variables its templates are rendered with", bool(L6) and not over6 and not flow6.issues and not elsewhere,
+           bad6.node if bad6 is not None else (elsewhere[0] if elsewhere else dinit), f"merge order: {[L.show() for L in L6]}" + "".join(f"; `{k}` is taken from {L.show() if L is not None else 'no source of Rally on every path'}" for k, L in sorted(over6.items())[:4]) +
+           "".join(f"; {t}" for t, _ in flow6.issues) + (f"; changed again in {source.qualname(elsewhere[0])}" if elsewhere else ""),
+           key=f"{_P}:DockerProvisioner.__init__:node-variables-merged-last")
 
 
 from sa.selftest import V  # noqa: E402
 
 VARIANTS = [
     V("loader: swap the two updates", "break", _T, "    variables.update(all_config_base_vars)\n    variables.update(all_car_vars)", "    variables.update(all_car_vars)\n    variables.update(all_config_base_vars)", "O13.1"),
-    V("installer: car variables win", "break", _P, "        variables.update(self.car.variables)\n        variables.update(defaults)", "        variables.update(defaults)\n        variables.update(self.car.variables)", "O13.1"),
+    V("installer: car variables win", "break", _P, "        variables.update(self.car.variables)\n        variables.update(self.node_variables)", "        variables.update(self.node_variables)\n        variables.update(self.car.variables)", "O13.1"),
     V("car params before the car file", "break", _T, "        variables = self._copy_section(config, \"variables\", {})\n        # add all car params here to override any defaults\n        if car_params:\n            variables.update(car_params)",
       "        variables = dict(car_params) if car_params else {}\n        self._copy_section(config, \"variables\", variables)", "O13.1"),
     V("seed m1: car params not applied to mixins", "break", _T, "        variables = self._copy_section(config, \"variables\", {})\n        # add all car params here to override any defaults\n        if car_params:\n            variables.update(car_params)",
@@ -402,8 +797,30 @@ VARIANTS = [
     V("seed m2: no forced trailing newline", "break", _P, "        return template.render(variables) + \"\\n\"", "        return template.render(variables)", "O13.3"),
     V("delete in the preserve branch", "break", _P, "        console.info(f\"Preserving benchmark candidate installation at [{install_dir}].\", logger=logger)", "        console.info(f\"Preserving benchmark candidate installation at [{install_dir}].\", logger=logger)\n        delete_path(install_dir)", "O13.4"),
     V("seed m3: data paths under the install dir skipped", "break", _P, "        for path in data_paths:\n            delete_path(path)", "        for path in data_paths:\n            if not path.startswith(install_dir):\n                delete_path(path)", "O13.4"),
+    # F37 (repaired by 5172c30): plugin variables merged after Rally's node variables, nothing re-applied
+    V("F37: node variables not re-applied after the plugin variables", "break", _P, "        provisioner_vars.update(plugin_variables)\n        # Rally's own node variables always win - also over plugin variables\n        provisioner_vars.update(self.es_installer.node_variables)\n",
+      "        provisioner_vars.update(plugin_variables)\n", "O13.5"),
+    V("F37: node variables re-applied BEFORE the plugin variables", "break", _P, "        provisioner_vars.update(plugin_variables)\n        # Rally's own node variables always win - also over plugin variables\n        provisioner_vars.update(self.es_installer.node_variables)\n",
+      "        provisioner_vars.update(self.es_installer.node_variables)\n        provisioner_vars.update(plugin_variables)\n", "O13.5"),
+    V("F37: node variables re-applied only when there are no plugins", "break", _P, "        provisioner_vars.update(self.es_installer.node_variables)\n",
+      "        if not self.plugin_installers:\n            provisioner_vars.update(self.es_installer.node_variables)\n", "O13.5"),
+    V("F37: a user-provided override merged last", "break", _P, "        provisioner_vars[\"cluster_settings\"] = cluster_settings\n\n        return provisioner_vars",
+      "        provisioner_vars[\"cluster_settings\"] = cluster_settings\n        provisioner_vars.update(self.es_installer.car.variables)\n\n        return provisioner_vars", "O13.5"),
+    V("F37: templates rendered with the installer's variables only", "break", _P, "        for p in self.es_installer.config_source_paths:\n            self.apply_config(p, target_root_path, provisioner_vars)",
+      "        for p in self.es_installer.config_source_paths:\n            self.apply_config(p, target_root_path, {**provisioner_vars, **self.plugin_installers[0].variables} if self.plugin_installers else provisioner_vars)", "O13.5"),
+    V("provisioner: plugin variables first, installer's variables second", "break", _P, "        provisioner_vars.update(self.es_installer.variables)\n        provisioner_vars.update(plugin_variables)\n",
+      "        provisioner_vars.update(plugin_variables)\n        provisioner_vars.update(self.es_installer.variables)\n", "O13.1"),
     # preserving
-    V("dict unpacking in the installer", "keep", _P, "        variables = {}\n        variables.update(self.car.variables)\n        variables.update(defaults)\n        return variables", "        variables = {**self.car.variables, **defaults}\n        return variables"),
+    V("F37 respelled: one dict display", "keep", _P, "        provisioner_vars = {}\n        provisioner_vars.update(self.es_installer.variables)\n        provisioner_vars.update(plugin_variables)\n        # Rally's own node variables always win - also over plugin variables\n        provisioner_vars.update(self.es_installer.node_variables)\n        provisioner_vars[\"cluster_settings\"] = cluster_settings\n",
+      "        provisioner_vars = {**self.es_installer.variables, **plugin_variables, **self.es_installer.node_variables, \"cluster_settings\": cluster_settings}\n"),
+    V("F37 respelled: installer held in a local, node variables in a local, dict() copy", "keep", _P, "        provisioner_vars = {}\n        provisioner_vars.update(self.es_installer.variables)\n        provisioner_vars.update(plugin_variables)\n        # Rally's own node variables always win - also over plugin variables\n        provisioner_vars.update(self.es_installer.node_variables)\n",
+      "        own = self.es_installer.node_variables\n        provisioner_vars = dict(self.es_installer.variables)\n        provisioner_vars.update(plugin_variables)\n        provisioner_vars.update(own)\n"),
+    V("F37 respelled: node variables back in a local dict of the property, method instead of property for the re-application", "keep", _P,
+      "        variables = {}\n        variables.update(self.car.variables)\n        variables.update(self.node_variables)\n        return variables",
+      "        defaults = self.node_variables\n        variables = {}\n        variables.update(self.car.variables)\n        variables.update(defaults)\n        return variables"),
+    V("F37 respelled: cluster settings first, node variables last", "keep", _P, "        provisioner_vars.update(self.es_installer.node_variables)\n        provisioner_vars[\"cluster_settings\"] = cluster_settings\n",
+      "        provisioner_vars[\"cluster_settings\"] = cluster_settings\n        provisioner_vars.update(self.es_installer.node_variables)\n"),
+    V("dict unpacking in the installer", "keep", _P, "        variables = {}\n        variables.update(self.car.variables)\n        variables.update(self.node_variables)\n        return variables", "        variables = {**self.car.variables, **self.node_variables}\n        return variables"),
     V("os.path.relpath", "keep", _P, "        relative_root = root[len(source_root_path) + 1 :]", "        relative_root = os.path.relpath(root, source_root_path)"),
     V("inverted preserve test", "keep", _P, "    if preserve:\n        console.info(f\"Preserving benchmark candidate installation at [{install_dir}].\", logger=logger)\n    else:\n        logger.info(\"Wiping benchmark candidate installation at [%s].\", install_dir)\n        for path in data_paths:\n            delete_path(path)\n\n        delete_path(install_dir)",
       "    if not preserve:\n        logger.info(\"Wiping benchmark candidate installation at [%s].\", install_dir)\n        for path in data_paths:\n            delete_path(path)\n\n        delete_path(install_dir)\n    else:\n        console.info(f\"Preserving benchmark candidate installation at [{install_dir}].\", logger=logger)"),
